@@ -5,7 +5,7 @@
 use std::alloc::{GlobalAlloc, Layout, System};
 use std::io::Write;
 use std::sync::atomic::{AtomicUsize, Ordering};
-use verif_harness::connrun::{run_case, Action, ConnCase, Finish, Mode, RespSpec, Timing, WOp};
+use verif_harness::connrun::{run_case, Action, ConnCase, Finish, Mode, RespSpec, Timing, WOp, READ_TO_END};
 use verif_harness::{seed_from_env, Rng};
 
 struct Counting;
@@ -51,7 +51,9 @@ fn ok_resp() -> RespSpec {
 }
 
 fn action(kind: usize, blen: usize) -> Action {
-    match kind % 7 {
+    match kind % 8 {
+        // the whole body in one `read_to_end` (what is allocated must follow what arrives, not what is declared)
+        7 => Action { as_reader: 1, read_total: blen.saturating_add(1), buf: READ_TO_END, delay_ms: 0, fin: Finish::Respond(ok_resp()), zero_read: false },
         // the raw writer, taken without ever asking for the body (an unanswered expectation stays unanswered)
         5 => Action { as_reader: 0, read_total: 0, buf: 1, delay_ms: 0, fin: Finish::Writer(vec![WOp::W(b"HTTP/1.1 200 OK\r\nContent-Length: 2\r\n\r\nok".to_vec()), WOp::F]), zero_read: false },
         6 => Action { as_reader: 0, read_total: 0, buf: 1, delay_ms: 0, fin: Finish::Writer(vec![]), zero_read: false },
@@ -66,7 +68,7 @@ fn action(kind: usize, blen: usize) -> Action {
 /// the adversarial corpus; deterministic in (seed, index)
 fn gen_case(i: usize, rng: &mut Rng) -> (ConnCase, String) {
     let fam = i % 16;
-    let act = rng.below(7);
+    let act = rng.below(8);
     let mut tag = String::new();
     let mut bytes: Vec<u8> = vec![];
     let mut blen = 0usize;
@@ -177,7 +179,7 @@ fn gen_case(i: usize, rng: &mut Rng) -> (ConnCase, String) {
             let v = *rng.pick(&["Expect: 100-continue\r\nContent-Length: 5\r\n\r\nhello", "Connection: upgrade\r\n\r\n\u{0}\u{1}raw", "Expect: \u{7f}\r\n\r\n", "Content-Length: 5\r\nContent-Length: 6\r\n\r\nhello!", ": empty-name\r\n\r\n",
                                 " Host: folded-first\r\n\r\n", "\t\r\nHost: x\r\n\r\n", " \r\n\r\n"]);
             // ... in every protocol version the request line can name
-            let ver = *rng.pick(&["1.1", "1.1", "1.0", "2.0", "3.0"]);
+            let ver = *rng.pick(&["1.1", "1.1", "1.0", "2.0", "3.0", "", "1", "1.", ".1", "11"]);
             bytes.extend_from_slice(format!("POST /x HTTP/{}\r\n{}", ver, v).as_bytes());
             if rng.chance(1, 2) {
                 bytes.extend_from_slice(b"GET /next HTTP/1.1\r\nHost: x\r\n\r\n");
@@ -200,7 +202,7 @@ fn gen_case(i: usize, rng: &mut Rng) -> (ConnCase, String) {
         let n = *rng.pick(&[0usize, 10, 5000]);
         a.fin = Finish::Respond(RespSpec { status: 200, hdrs: vec![], declared: None, thr: None, pieces: vec![vec![b'u'; n]] });
     }
-    let c = ConnCase { bytes, mode: Mode::HalfClose, hold: None, segs: vec![], script: vec![a], unix: false, intent: format!("i_fam=c14 i_tag={} i_act={}", tag, act) };
+    let c = ConnCase { bytes, mode: Mode::HalfClose, hold: None, segs: vec![], script: vec![a], unix: false, intent: format!("i_fam=c14 i_tag={} i_act={}{}", tag, act, if act % 8 == 7 { " bigcase=1" } else { "" }) };
     (c, tag)
 }
 
